@@ -12,6 +12,8 @@ import (
 	"encoding/json"
 	"flag"
 	"fmt"
+	"github.com/piotrnar/gocoin/lib/btc"
+	"github.com/piotrnar/gocoin/lib/chain"
 	"math/big"
 	"os"
 	"os/exec"
@@ -53,6 +55,8 @@ var params = func() refchain.Params {
 }()
 
 const fanOut = 70
+
+const vouchedLockTime = 777
 
 var watchdog = 120 * time.Second
 
@@ -399,6 +403,34 @@ func templates(p *prefix, thorough bool) []*tmpl {
 			{name: "B3", parent: "B2", tag: 2, txs: []*reftx.Tx{many(n[1], fanOut-n[1])}},
 		}))
 	}
+	// T7: the heavier branch's first block holds a transaction the memory pool vouches for (chain.TrustedTxChecker,
+	// installed as the client does) followed by one whose script fails: invalid only when connected.
+	{
+		okTx := sp(ops(op(p.M, 0)), outs(o1(10e8)))
+		okTx.LockTime = vouchedLockTime
+		badTx := sp(ops(op(p.M, 3)), outs(o1(10e8)))
+		ts = append(ts, p.mk("heavier-branch-pool-verified-tx-then-script-failure", []bspec{
+			{name: "A1", parent: "P", tag: 1, txs: []*reftx.Tx{sp(ops(op(p.M, 1)), outs(o1(10e8)))}},
+			{name: "A2", parent: "A1", tag: 1},
+			{name: "B1", parent: "P", tag: 2, txs: []*reftx.Tx{okTx, badTx}},
+			{name: "B2", parent: "B1", tag: 2},
+			{name: "B3", parent: "B2", tag: 2},
+		}))
+	}
+	// T8: three branches at one fork point, the first arrived one invalid when connected, the other two of
+	// equal work: what the failed reorganisation falls back to
+	{
+		x1 := sp(ops(op([32]byte{9, 9, 9}, 0)), outs(o1(1)))
+		ts = append(ts, p.mk("three-children-first-invalid-two-tied", []bspec{
+			{name: "X1", parent: "P", tag: 1, txs: []*reftx.Tx{x1}},
+			{name: "C1", parent: "P", tag: 2},
+			{name: "D1", parent: "P", tag: 3},
+			{name: "C2", parent: "C1", tag: 2},
+			{name: "D2", parent: "D1", tag: 3},
+			{name: "X2", parent: "X1", tag: 1},
+			{name: "X3", parent: "X2", tag: 1},
+		}))
+	}
 	// T4: equal-work ties at depth 2 and a late tie-breaker.
 	{
 		a1 := sp(ops(op(p.N, 1)), outs(o1(5e8), o1(20e8)))
@@ -513,6 +545,12 @@ func runHistory(p *prefix, t *tmpl, events []int, states map[string]bool, mu *sy
 				}
 			}
 			if isTie && failedReorg {
+				// The listed finding is exactly this: the fallback takes the heaviest leaf with ties broken by
+				// the order in which the competing children ARRIVED at their fork point. A tied tip that this
+				// rule does not produce is something else and is reported under its own key.
+				if pick := arrivalOrderPick(m, m.Nodes[p.tip]); pick != nil && pick.Hash != tip {
+					return fail("tip-tie-after-failed-reorg-not-by-arrival-order", fmt.Sprintf("after %s: tip is %s; first seen is %s, the arrival-order fallback of the listed finding would give %s", evname, name(tip), name(best[0].Hash), name(pick.Hash)))
+				}
 				return &outcome{key: "tip-tie-not-first-seen-after-failed-reorg", global: true, trace: trace,
 					what: fmt.Sprintf("after %s: tip is %s, first-seen best valid tip is %s (equal work)", evname, name(tip), name(best[0].Hash))}
 			}
@@ -636,6 +674,36 @@ func runWatched(p *prefix, t *tmpl, events []int, states map[string]bool, mu *sy
 	case <-time.After(watchdog):
 		return &outcome{key: "hang", what: fmt.Sprintf("history did not finish within %v (deadlock or livelock)", watchdog)}
 	}
+}
+
+// arrivalOrderPick emulates the documented fallback of the listed finding on the reference tree: from
+// root, descend into the child whose subtree carries the most work, the EARLIEST ARRIVED child winning
+// ties; only valid blocks are in the tree (the failed reorganisation removed the invalid ones).
+func arrivalOrderPick(m *refchain.Model, root *refchain.Node) *refchain.Node {
+	if root == nil {
+		return nil
+	}
+	kids := map[*refchain.Node][]*refchain.Node{}
+	for _, n := range m.Nodes {
+		if n.Parent != nil && m.Valid(n) {
+			kids[n.Parent] = append(kids[n.Parent], n)
+		}
+	}
+	var rec func(n *refchain.Node) (*refchain.Node, *big.Int)
+	rec = func(n *refchain.Node) (*refchain.Node, *big.Int) {
+		l := kids[n]
+		sort.Slice(l, func(i, j int) bool { return l[i].Seq < l[j].Seq })
+		best, bw := n, new(big.Int)
+		for i, c := range l {
+			leaf, w := rec(c)
+			if i == 0 || w.Cmp(bw) > 0 {
+				best, bw = leaf, w
+			}
+		}
+		return best, new(big.Int).Add(bw, refchain.Work(n.Bits))
+	}
+	leaf, _ := rec(root)
+	return leaf
 }
 
 var hexRun = regexp.MustCompile(`[0-9a-f]{16,}`)
@@ -796,6 +864,8 @@ func replay(r *ev.Run, p *prefix, ts []*tmpl, file string) {
 func main() {
 	r := ev.Start("C06", "model_checking")
 	minichain.Quiet()
+	// as the client does: transactions the memory pool has verified are not script-checked again in a block
+	chain.TrustedTxChecker = func(tx *btc.Tx) bool { return tx.Lock_time == vouchedLockTime }
 	debug.SetGCPercent(400)
 	if pf := os.Getenv("VERIF_PPROF"); pf != "" {
 		f, _ := os.Create(pf)
